@@ -141,6 +141,27 @@ def check(case):
     if (np.abs(d1 - d2) > tol * len(fine)).any():
         raise Violation('rise-not-refinement-invariant',
                         repr((d1 - d2).tolist()[:10]))
+    # a second specific-yield object of another parameter set, used right
+    # after the first one on a grid that starts exactly where the first
+    # ended (two sites simulated in one process)
+    other_params = {'type': 'spline',
+                    'zeta_knots_mm': [levels[-1] - 40.0, levels[-1] - 10.0,
+                                      levels[-1] + 15.0, levels[-1] + 60.0],
+                    'sy_knots': [0.9, 0.35, 0.6, 0.2]}
+    g = guarded(sy_mod.create_specific_yield_function,
+                copy.deepcopy(other_params))
+    grid2 = np.array([float(levels[-1]) + d for d in (0.0, 3.0, 7.5, 20.0)])
+    V = np.asarray(guarded(rise_mod.compute_rise_curve, g, grid2, 0.0),
+                   dtype=float)
+    for i in range(len(grid2) - 1):
+        ref, ref_abs = reference_integral(
+            g, float(grid2[i]), float(grid2[i + 1]),
+            other_params['zeta_knots_mm'])
+        if abs((V[i + 1] - V[i]) - ref) > 1e-9 * (ref_abs + 1.0):
+            raise Violation(
+                'rise-difference-not-integral:second-object',
+                'second function, levels {!r}..{!r}: {!r} vs {!r}'.format(
+                    grid2[i], grid2[i + 1], V[i + 1] - V[i], ref))
     labels = {case['where'], params['type']}
     if case['where'].startswith('straddle'):
         labels.add('nontrivial')
